@@ -21,24 +21,31 @@ PROPOSED_KNOWN = [
      "signature": {"fam": "cut", "cause": "leading-space-of-line-with-content-removed", "detail": "line-closed-by-comment"},
      "what": "parser.go ParseTemplateSource: when the token that closes a line is a comment (it ends the file, `tok.pos.End == lastIndex`, or it spans lines, so tok.lin is its END line) the cut test runs before that comment is counted: ` {# c #}x{# c #}` renders `x` - the leading space of a line WITH content is removed"},
     {"kind": "known",
+     "signature": {"fam": "cut", "cause": "space-after-multi-line-statement-removed-from-line-with-content", "detail": "-"},
+     "what": "parser.go ParseTemplateSource/cutSpaces: the text that follows the end of a {%% %%} spanning lines is taken for the end of the line being closed even when it has no line feed: `{%% a := 1<LF>%%} {{ 7 }}` renders `7` - the space of a line WITH a show is removed"},
+    {"kind": "known",
+     "signature": {"fam": "cut", "cause": "leading-space-and-space-after-multi-line-statement-removed", "detail": "-"},
+     "what": "both of the two causes above in one template"},
+    {"kind": "known",
      "signature": {"fam": "cut", "cause": "host-panic", "detail": "runtime error: slice bounds out of range [N:N]"},
      "what": "parser.go cutSpaces: a text without line feed that follows a multi-line {%% %%} is cut entirely as the END of the statement's first line and again as the START of the next line: `{%% a := 1<LF>%%} {# c #}<LF>x` panics in the emitter (Text[Cut.Left:len-Cut.Right], slice bounds out of range) instead of rendering"},
 ]
 
 FAMS = ["cut"]
-QUICK_ALPHA = {"x", "sp", "nl", "cmt", "cmtml", "if", "end", "var", "show7", "render", "rawnl", "stmtsml", "shebang"}
+QUICK_ALPHA = {"x", "sp", "nl", "cmt", "cmtml", "if", "end", "show7", "stmtsml"}
+THOROUGH_ALPHA = QUICK_ALPHA | {"var", "render", "rawnl", "shebang"}
 ALL_FMTS = ["txt", "html", "md", "js", "css", "json"]
 TEXT_NAMES = ["x", "sp", "tab", "nl", "spnl", "nlsp", "xnl", "crnl", "cr", "lb", "rb", "hash", "pct", "bom", "b"]
 SYNTAX_NAMES = ["show7", "shows", "render", "if", "end", "assign", "var", "stmts", "stmtsml", "cmt", "cmtn", "cmtml",
                 "raw", "rawm", "rawnl", "rawe"]
-INVS = ["EnvelopeAsWritten", "EnvelopeTextOnly", "SliceInRange", "SameAsFunctional"]
+INVS = ["EnvelopeHead", "EnvelopeFix", "SliceHead", "SliceFix", "SameAsFunctional"]
 
 
 def consts(ctx, mc, small=False):
     """mc=True: the model-checking run (no export worth speaking of); False: the export run (no state space)."""
-    alpha = QUICK_ALPHA
+    alpha = ctx.pick(QUICK_ALPHA, THOROUGH_ALPHA)
     return {"MaxLen": ctx.pick(4, 5) if mc else 0, "MCAlpha": alpha,
-            "GenLen": 0 if mc or small else ctx.pick(4, 5), "GenAlpha": alpha, "Fmts": {"txt"}}
+            "GenLen": 0 if mc or small else ctx.pick(4, 5), "GenAlpha": alpha}
 
 
 def run(ctx, only_case=None):
@@ -65,8 +72,6 @@ def run(ctx, only_case=None):
         raise Infra(f"driver returned {len(allobs)} observations for {len(cases)} cases")
     bads, stats = judge(ctx, "trace", allobs)
     by_id = {c["id"]: c for c in cases}
-    if only_case is None and stats["ref_undefined"]:
-        raise Infra(f"{stats['ref_undefined']} generated cases are outside the reference (the generator and Cut!Defined disagree)")
     ctx.cov.update(
         evaluations=len(allobs), traces_validated_against_impl=stats["judged"],
         skipped_not_built_or_run=stats["not_ok_on_defined"], ref_undefined=stats["ref_undefined"],
@@ -77,41 +82,51 @@ def run(ctx, only_case=None):
              "non-trivial = built and run, and the template has a raw block / show / render or a syntax piece together with white-space text",
         exhaustive=True, samples=[sample(o) for o in rig.pick_samples([o for o in allobs if nontrivial(o)] or allobs, 4, ctx.seed)],
         judged_bad_first_pass=len(bads),
-        # which reading of the end-of-file trigger IS the code (0 mismatches = that transcription matches every judged output)
-        model_vs_code_mismatches={"eof_trigger_any_token(as written at HEAD)": stats["drift_eof_any_token"],
-                                  "eof_trigger_text_tokens_only": stats["drift_eof_text_only"]},
+        # which transcription of the parser's line block IS the code under test (0 = it matches every judged output)
+        model_vs_code_mismatches={"head (as written at 6826cde)": stats["drift_head"], "fix (proposed repair)": stats["drift_fix"]},
     )
-    drift = min(stats["drift_eof_any_token"], stats["drift_eof_text_only"])
+    variant = "Head" if stats["drift_head"] <= stats["drift_fix"] else "Fix"
+    ctx.cov["model_variant_matching_code"] = variant.lower()
+    drift = min(stats["drift_head"], stats["drift_fix"])
     if drift:
-        ctx.cov["model_drift"] = f"{drift} judged outputs differ from the implementation-shaped model under either reading of the end-of-file trigger (diagnostic only)"
+        ctx.cov["model_drift"] = f"{drift} judged outputs differ from the implementation-shaped model under both transcriptions of the line block (diagnostic only)"
     if mc:
-        which = "EnvelopeAsWritten" if stats["drift_eof_any_token"] <= stats["drift_eof_text_only"] else "EnvelopeTextOnly"
-        n = ctx.cov["model_counterexamples"].get(which, 0) + ctx.cov["model_counterexamples"].get("SliceInRange", 0)
-        if n:
-            ctx.cov["model_counterexample"] = (f"the transcription that matches the code ({which}) has {ctx.cov['model_counterexamples'].get(which, 0)} "
-                                               f"sequences outside the envelope and {ctx.cov['model_counterexamples'].get('SliceInRange', 0)} with overlapping cuts "
-                                               "(design-level, diagnostic; the verdict is from the real code)")
-    # ---- reproduction guard: fresh driver process, judge again
-    confirmed = []
-    if bads:
+        cex = ctx.cov["model_counterexamples"]
+        n_env, n_sl = cex.get("Envelope" + variant, 0), cex.get("Slice" + variant, 0)
+        if n_env or n_sl:
+            ctx.cov["model_counterexample"] = (f"the transcription that matches the code ({variant.lower()}) has {n_env} sequences whose model output is "
+                                               f"outside the envelope and {n_sl} with overlapping cuts (design-level, diagnostic; the verdict is from the real code)")
+    # ---- reproduction guard (fresh driver process, judged again) and, in parallel, the sensitivity
+    # self-test (corrupted observations must be rejected by the same Trace spec)
+    def confirm():
+        if not bads:
+            return []
         ids = sorted({b["id"] for b in bads})
         cc = ctx.work / "confirm_cases.ndjson"
         rig.write_ndjson(cc, [by_id[i] for i in ids])
         co = ctx.work / "confirm_obs.ndjson"
         ctx.drive("c15", cc, co)
-        b2, _ = judge(ctx, "trace_confirm", rig.read_ndjson(co))
+        b2, _ = judge(ctx, "trace_confirm", rig.read_ndjson(co), shards=1)
         again = {(b["id"], json.dumps(b["sig"], sort_keys=True)) for b in b2}
-        confirmed = [b for b in bads if (b["id"], json.dumps(b["sig"], sort_keys=True)) in again]
+        return [b for b in bads if (b["id"], json.dumps(b["sig"], sort_keys=True)) in again]
+
+    def selftest():
+        st = corrupted(allobs, ctx.seed)
+        if not st:
+            return None
+        b3, _ = judge(ctx, "trace_selftest", st, shards=1)
+        return st, {b["id"] for b in b3}
+    with ThreadPoolExecutor(max_workers=2) as ex:
+        f_c, f_s = ex.submit(confirm), ex.submit(selftest)
+        confirmed, sres = f_c.result(), f_s.result()
+    if bads:
         ctx.cov["unreproduced"] = len(bads) - len(confirmed)
-        confirmed.sort(key=lambda b: (len(b["obs"]["src"]), b["id"]))      # shortest witness first
-        for b in confirmed:
-            b["what"] = sample(b["obs"])
-            b["case"] = {k: by_id[b["id"]][k] for k in ("id", "fmt", "names")}
-    # ---- sensitivity self-test: corrupted observations must be rejected by the same Trace spec
-    st = corrupted(allobs, ctx.seed)
-    if st:
-        b3, _ = judge(ctx, "trace_selftest", st)
-        rej = {b["id"] for b in b3}
+    confirmed.sort(key=lambda b: (len(b["obs"]["src"]), b["id"]))      # shortest witness first
+    for b in confirmed:
+        b["what"] = sample(b["obs"])
+        b["case"] = {k: by_id[b["id"]][k] for k in ("id", "fmt", "names")}
+    if sres:
+        st, rej = sres
         ctx.cov["sensitivity_selftest"] = {"corrupted": len(st), "rejected": len(rej), "kinds": sorted({o["_kind"] for o in st})}
         if len(rej) < len(st):
             raise Infra(f"sensitivity self-test failed: {len(st)} corrupted observations, only {len(rej)} rejected")
@@ -210,7 +225,7 @@ def assemble(ctx, catalogue, seqs):
 
 def judge(ctx, step, observations, shards=None):
     """Trace_Cut over the observations, sharded over parallel TLC processes. Returns (bad records with obs, summed stats)."""
-    shards = shards or (1 if len(observations) < 4000 else min(8, max(2, rig.NCPU // 2)))
+    shards = shards or (1 if len(observations) < 3000 else min(6, max(2, len(observations) // 4000 + 1)))
     size = (len(observations) + shards - 1) // shards or 1
     parts = [observations[i:i + size] for i in range(0, max(len(observations), 1), size)]
 
